@@ -1,6 +1,7 @@
 """Event handlers for qrscp.py"""
 
 import os
+import re
 
 from pydicom import dcmread
 
@@ -316,7 +317,15 @@ def handle_store(event, storage_dir, db_path, cli_config, logger):
 
     # Try and add the instance to the database
     #   If we fail then don't even try to store
-    fpath = os.path.join(storage_dir, sop_instance)
+    # Sanitise the filename by replacing all illegal characters with
+    #   underscores so the instance is always written to `storage_dir`
+    fname = re.sub(r"[^\d.]", "_", str(sop_instance))
+    if not fname.strip("."):
+        logger.error("Unable to use the SOP Instance UID as the filename")
+        # Cannot Understand
+        return 0xC210
+
+    fpath = os.path.join(storage_dir, fname)
 
     if os.path.exists(fpath):
         logger.warning("Instance already exists in storage directory, overwriting")
